@@ -3,10 +3,13 @@
 def _e1(check, binary='h_e1'):
     return [dict(binary=binary, check=check, variant='ref')]
 
+def _e1v(check, binary='h_e1', variants=('ref', 'obl', 'i64', 'asan')):
+    return [dict(binary=binary, check=check, variant=v) for v in variants]
+
 CHECKS = {
-    'C01': dict(level='exploration', runs=_e1('C01'), percase=5, deadline=dict(quick=150, thorough=1500)),
-    'C02': dict(level='exploration', runs=_e1('C02'), percase=5, deadline=dict(quick=150, thorough=1500)),
-    'C03': dict(level='exploration', runs=_e1('C03'), percase=5, deadline=dict(quick=150, thorough=1500)),
+    'C01': dict(level='exploration', runs=_e1v('C01'), percase=5, deadline=dict(quick=150, thorough=1500)),
+    'C02': dict(level='exploration', runs=_e1v('C02'), percase=5, deadline=dict(quick=150, thorough=1500)),
+    'C03': dict(level='exploration', runs=_e1v('C03'), percase=5, deadline=dict(quick=150, thorough=1500)),
     'C04': dict(level='exploration', runs=_e1('C04') + _e1('C04x', 'h_e1x'), percase=5, deadline=dict(quick=200, thorough=1500)),
     'C05': dict(level='exploration', runs=_e1('C05', 'h_e1x'), percase=5, deadline=dict(quick=150, thorough=1500)),
     'C12': dict(level='exploration', runs=_e1('C12', 'h_e1x'), percase=5, deadline=dict(quick=150, thorough=1500)),
